@@ -316,3 +316,112 @@ def canon_tables(ctx, cfg_name, prog, rule='R-CANON'):
                    'else results are not the canonical representative: %s' % (f['qn'], fix, '; '.join(bad[:3])), cfg=cfg_name,
                    sample=dict(config=cfg_name, function=f['qn'], correction=fix, cases_checked=6))
     ctx.floor('%s correction steps[%s]' % (rule, cfg_name), n, 4)
+
+
+# ---------------------------------------------------------------- R-DEFOUT: accumulators are written on every path
+def accumulation_functions(prog):
+    """functions that fold into an output inside a loop: X.op(X, Y) with X the output slot (this / non-const reference)"""
+    out = []
+    for f in prog.functions.values():
+        if 'body' not in f or not f['l'][0].startswith(('src/bls12_381', 'include/bls12_381', 'include/core')):
+            continue
+        outs = set()
+        if f.get('method') and not f.get('static_method') and not f.get('const_method'):
+            outs.add('this')
+            outs.add('*this')
+        for p in f['params']:
+            if p.get('indirect') == 'ref' and not p.get('pointee_const') and (p['t'].get('pointee') or {}).get('k') in ('record', 'union'):
+                outs.add('P:' + p['name'])
+        acc = None
+        for n in walk(f['body']):
+            if n.get('k') in ('for', 'while', 'do'):
+                for c in pr.calls(n['body']):
+                    if c.get('name') in ('add', 'multiply') and c.get('this') is not None and c.get('args'):
+                        th = pr.canon(c['this'])
+                        if th in outs and pr.canon(c['args'][0]) in (th, '*' + th, th.lstrip('*')):
+                            acc = 'this' if th in ('this', '*this') else th
+        if acc:
+            out.append((f, acc))
+    return out
+
+
+def rule_defout(ctx, cfg_name, prog, name_filter=None, rule='R-DEFOUT'):
+    n = 0
+    for (f, acc) in accumulation_functions(prog):
+        if name_filter and not name_filter(f):
+            continue
+        n += 1
+        g = CFG(f)
+        accs = {acc, '*' + acc} if acc != 'this' else {'this', '*this'}
+        # tracked boolean locals: assigned only literals
+        bools = {}
+        for x in walk(f['body']):
+            if x.get('k') == 'decl':
+                for v in x['vars']:
+                    if (v.get('t') or {}).get('k') == 'bool' and v.get('id') is not None:
+                        bools[v['id']] = True
+        for x in walk(f['body']):
+            if x.get('k') == 'assign':
+                l = strip(x['lhs'])
+                if l.get('k') == 'ref' and l.get('id') in bools and strip(x['rhs']).get('bool') is None:
+                    bools[l['id']] = False
+            if x.get('k') == 'decl':
+                for v in x['vars']:
+                    if v.get('id') in bools and v.get('init') is not None and strip(v['init']).get('bool') is None:
+                        bools[v['id']] = False
+        tracked = sorted(k for k, v in bools.items() if v)
+
+        def writes(node):
+            for x in walk(node.ast):
+                if x.get('k') == 'call' and x.get('this') is not None and pr.canon(x['this']) in accs and \
+                   not (prog.callee(x, f) or {}).get('const_method'):
+                    return True
+                if x.get('k') == 'assign' and pr.canon(x['lhs']).split('.')[0].split('->')[0] in accs:
+                    return True
+                if x.get('k') == 'call' and (prog.callee(x, f) is not None) and any(
+                        pr.canon(a) in accs and i < len(prog.callee(x, f)['params']) and not prog.callee(x, f)['params'][i].get('pointee_const')
+                        and prog.callee(x, f)['params'][i].get('indirect') for i, a in enumerate(x.get('args', []))):
+                    return True
+            return False
+
+        start = (g.entry.id, tuple([None] * len(tracked)), False)
+        seen = {start}
+        work = [start]
+        bad = None
+        while work:
+            (nid, env, written) = work.pop()
+            nd = g.nodes[nid]
+            if nid == g.exit.id:
+                if not written:
+                    bad = env
+                continue
+            env2 = list(env)
+            w2 = written
+            if nd.kind == 'stmt' and nd.ast is not None:
+                if writes(nd):
+                    w2 = True
+                for x in walk(nd.ast):
+                    if x.get('k') == 'assign' and strip(x['lhs']).get('id') in tracked and strip(x['rhs']).get('bool') is not None:
+                        env2[tracked.index(strip(x['lhs'])['id'])] = strip(x['rhs'])['bool']
+                    if x.get('k') == 'decl':
+                        for v in x['vars']:
+                            if v.get('id') in tracked and v.get('init') is not None:
+                                env2[tracked.index(v['id'])] = strip(v['init']).get('bool')
+            elif nd.kind == 'cond' and writes(nd):
+                w2 = True
+            for (y, lab) in nd.succ:
+                if nd.kind == 'cond' and lab is not None:
+                    e = strip(nd.ast)
+                    if e.get('k') == 'ref' and e.get('id') in tracked:
+                        v = env2[tracked.index(e['id'])]
+                        if v is not None and v != lab:
+                            continue
+                st = (y, tuple(env2), w2)
+                if st not in seen:
+                    seen.add(st)
+                    work.append(st)
+        ctx.ob(rule, bad is None, 'defout|%s' % strip_tmpl(f['qn']), loc_str(f),
+               '%s accumulates into %s inside a digit loop but there is a path to the end on which %s is never written (all digits zero / '
+               'no iteration): the caller gets stale contents instead of the identity' % (f['qn'], acc, acc), cfg=cfg_name,
+               sample=dict(config=cfg_name, function=f['qn'][:100], accumulator=acc, states=len(seen)))
+    return n
